@@ -75,6 +75,20 @@ type failure struct {
 }
 
 const minBal = 100000
+const lowMinBal = 1000
+
+// curMinBal is the AllBalances.MinValue in force: every re-enabling of the index switches between the two limits
+// (the client's UI changes CFG.AllBalances.MinValue and calls LoadBalancesFromUtxo, which applies it).
+var curMinBal uint64 = minBal
+
+func toggleMinBal() {
+	if curMinBal == minBal {
+		curMinBal = lowMinBal
+	} else {
+		curMinBal = minBal
+	}
+	common.CFG.AllBalances.MinValue = curMinBal
+}
 
 func checkState(n *conc.Node, p *Pred, bal bool) *failure {
 	tip, ok := n.Tip()
@@ -135,7 +149,7 @@ func checkBalances(n *conc.Node, ents []conc.UtxoEnt) *failure {
 	seen[key{0, conc.StP2SH}] = true
 	for _, e := range ents {
 		o := n.W.OutsOf(e.Tx)[e.Vout-1]
-		if o.Amt.Sat() < minBal {
+		if o.Amt.Sat() < curMinBal {
 			continue
 		}
 		k := key{o.Addr, o.St}
@@ -225,6 +239,8 @@ func replayOne(w *conc.World, dir string, ln *Line, bal bool) (step int, f *fail
 	if bal {
 		common.BlockChain = n.Ch
 		wallet.Disable()
+		curMinBal = minBal
+		common.CFG.AllBalances.MinValue = curMinBal
 		wallet.LoadBalancesFromUtxo()
 	}
 	var steps []Step
@@ -255,6 +271,7 @@ func replayOne(w *conc.World, dir string, ln *Line, bal bool) (step int, f *fail
 			n.Ch.Idle()
 		case "BalEnable":
 			if bal {
+				toggleMinBal() // the index comes back with the other dust limit
 				wallet.LoadBalancesFromUtxo()
 			}
 		case "BalDisable":
